@@ -29,8 +29,11 @@ CONFIGS = [
     # without any hook, a submission with >= 1 s of parse+load is interrupted 0.3-0.5 s after hand-over
     ("parse_window_hook", {"before_eval_loop": 1200}),
     ("parse_window_big", {}),
+    # a pending interrupt (eval blocked in `shell::run("sleep", ["2"])`) must survive a completions / lookup /
+    # eval request dispatched to the same session before the built-in returns
+    ("pending_interrupt", {}),
 ]
-N_BY_KIND = {"parse_window_hook": 3, "parse_window_big": 2}
+N_BY_KIND = {"parse_window_hook": 3, "parse_window_big": 2, "pending_interrupt": 4}
 
 
 def extra(kind, sc, res):
